@@ -13,7 +13,11 @@
 //! (initial value, values only seen by the tick a publish request triggers, small-queue or
 //! publishing-interval-sampled items, anything pending when the item / subscription is deleted, disabled
 //! or changes monitoring mode) is optional: it may be delivered, in order, or not. A delivered value must
-//! be the next owed one after skipping optional entries only. After the history a drain phase supplies
+//! be the next owed one after skipping optional entries only. Items are created with every
+//! timestamps-to-return value and, besides unfiltered ones, with a data change filter without deadband
+//! (trigger StatusValue or StatusValueTimestamp): every write of these histories stores a new value with
+//! new timestamps and nothing else touches a variable, so such a filter selects exactly the writes and
+//! the same bookkeeping applies (a value re-delivered in a later cycle is a duplicate). After the history a drain phase supplies
 //! publish requests and interval ticks until nothing but keep-alives comes back; mandatory entries left
 //! over then are lost values.
 use crate::common::*;
@@ -27,7 +31,9 @@ type Op = Vec<i64>;
 // op codes
 const CS: i64 = 1; // create subscription: [CS, interval_idx, keepalive, priority, enabled]
 const DS: i64 = 2; // delete subscription: [DS, slot]
-const CI: i64 = 3; // create item: [CI, sub_slot, var, kind]   kind 0 strong, 1 interval-sampled, 2 small queue discard oldest, 3 small queue discard newest
+const CI: i64 = 3; // create item: [CI, sub_slot, var, kind, ts]   kind 0 strong, 1 interval-sampled, 2 small queue discard oldest, 3 small queue discard newest,
+                   //   4 strong with a DataChangeFilter {trigger StatusValue, no deadband}, 5 strong with {trigger StatusValueTimestamp}
+                   //   ts = timestamps to return of the create request: 0 Neither, 1 Source, 2 Server, 3 Both
 const DI: i64 = 4; // delete item: [DI, sub_slot, item_slot]
 const WR: i64 = 5; // write next value: [WR, var]
 const TK: i64 = 6; // advance dt ms (>=100), timer: [TK, dt]
@@ -60,6 +66,8 @@ struct Item {
     handle: u32,
     var: usize,
     strong: bool,
+    /// item shape for signatures (empty for an item without filter)
+    shape: String,
     reporting: bool,
     mode_code: i64,
     alive: bool,
@@ -259,7 +267,8 @@ impl Run {
                             None => {
                                 let kind = if it.last_delivered.map(|l| v <= l).unwrap_or(false) { "duplicate-or-reordered" } else { "never-sampled-value" };
                                 let d = format!("item handle {} got {} after {:?}; owed next: {:?}", handle, v, it.last_delivered, it.owed.iter().take(4).map(|o| o.v).collect::<Vec<_>>());
-                                self.add(&format!("delivery|{}", kind), d);
+                                let shape = it.shape.clone();
+                                self.add(&format!("delivery|{}{}", kind, shape), d);
                             }
                             Some(p) => {
                                 let skipped: Vec<Owed> = it.owed.drain(..p).collect();
@@ -395,26 +404,44 @@ impl Run {
                     return;
                 }
                 let var = (a(2).unsigned_abs() as usize) % NVARS;
-                let kind = a(3).rem_euclid(4);
+                let kind = a(3).rem_euclid(6);
                 let (sampling, queue, discard_oldest) = match kind {
-                    0 => (100.0, BIG_QUEUE as u32, true),
+                    0 | 4 | 5 => (100.0, BIG_QUEUE as u32, true),
                     1 => (-1.0, BIG_QUEUE as u32, true),
                     2 => (100.0, 2, true),
                     _ => (100.0, 3, false),
                 };
+                let trigger = match kind {
+                    4 => Some(DataChangeTrigger::StatusValue),
+                    5 => Some(DataChangeTrigger::StatusValueTimestamp),
+                    _ => None,
+                };
+                let (ts, ts_name) = match a(4).rem_euclid(4) {
+                    0 => (TimestampsToReturn::Neither, "Neither"),
+                    1 => (TimestampsToReturn::Source, "Source"),
+                    2 => (TimestampsToReturn::Server, "Server"),
+                    _ => (TimestampsToReturn::Both, "Both"),
+                };
+                let strong = matches!(kind, 0 | 4 | 5);
+                let shape = match kind {
+                    4 => format!("|item-with-data-change-filter-trigger-StatusValue-timestamps-{}", ts_name),
+                    5 => format!("|item-with-data-change-filter-trigger-StatusValueTimestamp-timestamps-{}", ts_name),
+                    _ => String::new(),
+                };
                 let handle = self.next_handle;
                 self.next_handle += 1;
                 let subid = self.subs[si].id;
-                match self.e.create_item(subid, var, handle, sampling, queue, discard_oldest, MonitoringMode::Reporting) {
+                match self.e.create_item_ext(subid, var, handle, sampling, queue, discard_oldest, MonitoringMode::Reporting, ts, trigger) {
                     Ok((id, rs, rq)) => {
-                        if kind == 0 && (rs != 100.0 || rq as usize != BIG_QUEUE) {
+                        if strong && (rs != 100.0 || rq as usize != BIG_QUEUE) {
                             self.add("harness|item-parameters-revised", format!("sampling {} queue {}", rs, rq));
                         }
                         self.subs[si].items.push(Item {
                             id,
                             handle,
                             var,
-                            strong: kind == 0,
+                            strong,
+                            shape,
                             reporting: true,
                             mode_code: 2,
                             alive: true,
@@ -624,7 +651,7 @@ pub fn describe(ops: &[Op]) -> String {
             match a(0) {
                 CS => format!("create-sub(iv={}ms,ka={},prio={},enabled={})", INTERVALS[(a(1).unsigned_abs() as usize) % 4], a(2).clamp(1, 10), a(3), a(4) != 0),
                 DS => format!("delete-sub({})", a(1)),
-                CI => format!("create-item(sub={},var={},kind={})", a(1), a(2), a(3).rem_euclid(4)),
+                CI => format!("create-item(sub={},var={},kind={},ts={})", a(1), a(2), a(3).rem_euclid(6), ["Neither", "Source", "Server", "Both"][a(4).rem_euclid(4) as usize]),
                 DI => format!("delete-item(sub={},item={})", a(1), a(2)),
                 WR => format!("write(var={})", a(1)),
                 TK => format!("timer(+{}ms)", a(1).max(100)),
@@ -639,6 +666,20 @@ pub fn describe(ops: &[Op]) -> String {
         .join("; ")
 }
 
+/// (kind, timestamps to return) of a new item: two in three are "strong" (every sampled change promised), of
+/// these one in three carries a data change filter; the plain histories use unfiltered items, timestamps Neither
+fn item_shape(rng: &mut Rng, simple: bool) -> (i64, i64) {
+    if simple {
+        return (0, 0);
+    }
+    let kind = if rng.chance(2, 3) {
+        if rng.chance(1, 3) { 4 + rng.below(2) as i64 } else { 0 }
+    } else {
+        1 + rng.below(3) as i64
+    };
+    (kind, rng.below(4) as i64)
+}
+
 /// Random history. feed: 0 random, 1 a full set of publish requests before every timer tick (no tick
 /// finds the queue short, so the verdict does not depend on what happens in the late state), 2 bursts
 fn gen_ops(rng: &mut Rng, feed: u64, len: usize, simple: bool) -> Vec<Op> {
@@ -649,8 +690,8 @@ fn gen_ops(rng: &mut Rng, feed: u64, len: usize, simple: bool) -> Vec<Op> {
     }
     for s in 0..nsubs {
         for _ in 0..(1 + rng.below(3)) {
-            let kind = if simple || rng.chance(2, 3) { 0 } else { 1 + rng.below(3) as i64 };
-            ops.push(vec![CI, s, rng.below(NVARS as u64) as i64, kind]);
+            let (kind, ts) = item_shape(rng, simple);
+            ops.push(vec![CI, s, rng.below(NVARS as u64) as i64, kind, ts]);
         }
     }
     let mut burst_fed = true;
@@ -680,7 +721,10 @@ fn gen_ops(rng: &mut Rng, feed: u64, len: usize, simple: bool) -> Vec<Op> {
                     ops.push(vec![WR, rng.below(NVARS as u64) as i64]);
                 }
             }
-            80..=84 if !simple => ops.push(vec![CI, rng.below(4) as i64, rng.below(NVARS as u64) as i64, if rng.chance(2, 3) { 0 } else { 1 + rng.below(3) as i64 }]),
+            80..=84 if !simple => {
+                let (kind, ts) = item_shape(rng, false);
+                ops.push(vec![CI, rng.below(4) as i64, rng.below(NVARS as u64) as i64, kind, ts]);
+            }
             85..=87 if !simple => ops.push(vec![DI, rng.below(4) as i64, rng.below(5) as i64]),
             88..=89 if !simple => ops.push(vec![CS, rng.below(4) as i64, 1 + rng.below(5) as i64, rng.below(4) as i64 * 50, rng.chance(9, 10) as i64]),
             90..=91 if !simple => ops.push(vec![DS, rng.below(4) as i64]),
@@ -737,12 +781,18 @@ fn class_of(ops: &[Op], feed: u64, simple: bool) -> String {
         4..=9 => "4-9",
         _ => "10+",
     };
+    let filtered = ops.iter().filter(|o| o.first() == Some(&CI) && o.get(3).cloned().unwrap_or(0).rem_euclid(6) >= 4).count();
+    let mut ts: Vec<i64> = ops.iter().filter(|o| o.first() == Some(&CI)).map(|o| o.get(4).cloned().unwrap_or(0).rem_euclid(4)).collect();
+    ts.sort();
+    ts.dedup();
     format!(
-        "feed{} simple{} subs{} items{} del{}/{} pm{} mm{} len{}",
+        "feed{} simple{} subs{} items{} filtered{} ts{} del{}/{} pm{} mm{} len{}",
         feed,
         simple as u8,
         bucket(cnt(CS)),
         bucket(cnt(CI)),
+        bucket(filtered),
+        ts.iter().map(|t| t.to_string()).collect::<Vec<_>>().join(""),
         bucket(cnt(DS)),
         bucket(cnt(DI)),
         bucket(cnt(PM)),
@@ -801,6 +851,26 @@ fn scripted() -> Vec<(&'static str, Vec<Op>)> {
                 vec![CS, 0, 2, 10, 1], vec![CS, 0, 2, 20, 1], vec![CI, 0, 0, 0], vec![CI, 1, 1, 0], vec![TK, 100], vec![PF], vec![TK, 100], vec![PF], vec![TK, 100],
                 vec![WR, 0], vec![WR, 1], vec![TK, 100], vec![WR, 0], vec![WR, 1], vec![PB, 0], vec![TK, 100],
             ],
+        ),
+        (
+            // every filter trigger x timestamps-to-return on one variable: written twice, then many cycles without a write
+            "filtered-items-unchanged-value-over-many-cycles",
+            {
+                let mut ops: Vec<Op> = vec![vec![CS, 0, 2, 0, 1], vec![CS, 0, 2, 0, 1], vec![CS, 0, 2, 0, 1]];
+                let mut n = 0;
+                for kind in [0i64, 4, 5] {
+                    for ts in 0..4i64 {
+                        ops.push(vec![CI, n / 4, 3, kind, ts]);
+                        n += 1;
+                    }
+                }
+                ops.extend([vec![PF], vec![TK, 100], vec![WR, 3], vec![PF], vec![TK, 100], vec![WR, 3]]);
+                for _ in 0..6 {
+                    ops.push(vec![PF]);
+                    ops.push(vec![TK, 100]);
+                }
+                ops
+            },
         ),
         (
             "several-writes-between-ticks",
